@@ -250,8 +250,12 @@ class RigidBody:
             self.artist_.set_data(body2origin, vertices=self.vertices_, tetrahedra=self.tetrahedra_)
 
     def aabb(self):
-        """The aabb of the rigidbody"""
-        return self.aabb_tree.get_root_aabb()
+        """The aabb of the rigidbody in the origin frame."""
+        points_in_origin = transform_points(
+            np.ascontiguousarray(self.body2origin_),
+            np.ascontiguousarray(self.tetrahedra_points.reshape(-1, 3)))
+        return np.column_stack((np.min(points_in_origin, axis=0),
+                                np.max(points_in_origin, axis=0)))
 
     @property
     def aabbs(self):
